@@ -91,7 +91,11 @@ class Ctx:
         os.makedirs(os.path.join(VERIF, "evidence", "replay"), exist_ok=True)
         unlisted = 0
         seen_known = set()
+        reported = set()
         for i, v in enumerate(self.violations):
+            if (v["rule"], v["instance"]) in reported:
+                continue  # same instance in another template shape / build variant
+            reported.add((v["rule"], v["instance"]))
             match = None
             for f in mine:
                 if f["rule"] == v["rule"] and f["instance"] == v["instance"]:
